@@ -285,6 +285,16 @@ def alphabet(ref, state, tier='quick'):
                     if isinstance(lim, (int, float)) and not isinstance(lim, bool):
                         for x in (lim - st, lim, lim + st):
                             add(L('change', MOD, wire, x, 'around-limit', True))
+                        if spec[0] == 'double':
+                            # at every decade of distance from the CURRENT limit, inside and outside (a tolerance of the
+                            # datatype must not soften a dynamic limit), and at fractions of the absolute resolution
+                            deltas = [abs(lim) * 10.0 ** -k if lim else 10.0 ** -k for k in range(3, 13)]
+                            if spec[3]:
+                                deltas += [spec[3] * f for f in (0.25, 0.5, 1.0, 1.5)]
+                            for dlt in deltas:
+                                for x in (lim - dlt, lim + dlt):
+                                    if x != lim:
+                                        add(L('change', MOD, wire, x, 'near-limit'))
         elif wire:
             for x in (good[0], good[-1], None, 'abc', [1]):
                 add(L('change', MOD, wire, x, 'not-writable'))
@@ -332,15 +342,14 @@ def alphabet(ref, state, tier='quick'):
     add(L('do', MOD, None, NOVALUE, 'no-accessible'))
     if 'target' not in params:
         add(L('change', MOD, None, 1, 'no-accessible'))
-    href = G.reference(G.HIDDEN_SHAPE)
-    for attr, rec in href['params'].items():
-        for name in sorted({rec['wire'], attr, '_' + attr} - {None}):
-            add(L('change', HIDDEN_MOD, name, V.valid(rec['spec'], 'wire')[0], 'unexported-module'))
+    # the unexported neighbour (its cfg carries per-accessible export entries): every candidate name, both request kinds
+    hnames = G.hidden_names()
+    for name in sorted(hnames['param'] | hnames['command']):
+        for x in (0, 1):
+            add(L('change', HIDDEN_MOD, name, x, 'unexported-module'))
+        add(L('do', HIDDEN_MOD, name, NOVALUE, 'unexported-module'))
+        add(L('do', HIDDEN_MOD, name, 1, 'unexported-module'))
     add(L('change', HIDDEN_MOD, None, 1, 'unexported-module'))
-    for attr, rec in href['commands'].items():
-        x = V.valid(rec['arg'], 'wire')[0] if rec['arg'] else NOVALUE
-        for name in sorted({rec['wire'], attr, '_' + attr} - {None}):
-            add(L('do', HIDDEN_MOD, name, x, 'unexported-module'))
     return out
 
 
@@ -454,7 +463,8 @@ class World:
         self.mode = mode
         self.ref = G.reference(shape)
         cls = G.make_class(shape)
-        self.node = nodes.Node({MOD: {'cls': cls}, HIDDEN_MOD: {'cls': G.make_class(G.HIDDEN_SHAPE), 'export': False}})
+        self.node = nodes.Node({MOD: {'cls': cls},
+                                HIDDEN_MOD: dict(json.loads(json.dumps(G.HIDDEN_CFG)), cls=G.make_class(G.HIDDEN_SHAPE))})
         # debug records are not consulted by this check; formatting several of them per request dominates the run time
         import logging
         for name, lg in list(logging.Logger.manager.loggerDict.items()):
